@@ -401,7 +401,7 @@ impl<'g> Runner<'g> {
             GRef::Mut(g) => g.graph.edge_count(),
         };
         let sh: Sh = Rc::new(RefCell::new(Shared {
-            released: vec![false; n],
+            released: (0..n).map(|i| cfg.instant.contains(&i)).collect(),
             wakers: vec![None; n],
             failing: cfg.failing.iter().copied().collect(),
             yields: cfg.yields.clone(),
